@@ -92,6 +92,24 @@ def impl_check(c, weighted, timeout=3000):
     return tlc.run_tlc("ListDictImpl", cfg, workers=16, coverage=True, timeout=timeout)
 
 
+def branch_coverage(res, module="ListDictImpl"):
+    """{marker: count}: TLC's expression-level coverage of the spec lines that carry an
+    `@cov:<name>` comment (largest count of an expression starting on that line)."""
+    import os
+    marks = {}
+    with open(os.path.join(tlc.SPECS, module + ".tla")) as fh:
+        for i, ln in enumerate(fh, 1):
+            m = re.search(r"\\\*.*@cov:([\w-]+)", ln)
+            if m:
+                marks[i] = m.group(1)
+    out = {v: 0 for v in marks.values()}
+    for m in re.finditer(r"line (\d+), col \d+ to line \d+, col \d+ of module %s: (\d+)" % module, res.stdout):
+        ln = int(m.group(1))
+        if ln in marks:
+            out[marks[ln]] = max(out[marks[ln]], int(m.group(2)))
+    return out
+
+
 def impl_histories(c, weighted, timeout=3000):
     """[(history, impl-level state)] one per distinct state of ListDictImpl."""
     cc = dict(c, Weighted=bool(weighted))
@@ -235,7 +253,9 @@ def check_node(g, s, history, weighted, unit, select=True):
     # ---- selection law: choose_random (no effect) and random_removal -------------
     expect = {x: sel[x - 1] for x in range(1, n + 1) if sel[x - 1] > 0}
     sel_edges = {op[1]: (op[2], s2) for op, s2 in g.edges.get(s, {}).items() if op[0] == "S"}
-    if g.edges.get(s) is not None and {x: v[0] for x, v in sel_edges.items()} != expect:
+    if s not in g.edges:
+        raise tlc.TLCError("reference state %r has no emitted edges (graph bound too small for this history)" % (s,))
+    if {x: v[0] for x, v in sel_edges.items()} != expect:
         raise tlc.TLCError("Select edges %r disagree with SelNum %r in state %r" % (sel_edges, expect, s))
     inv = {LABELS[x]: x for x in range(1, n + 1)}
     for entry in ("choose_random", "random_removal"):
